@@ -244,8 +244,9 @@ def accept(loopname, prog, events, res, res2):
     else:
         want = "ok" if first_raise[2] == "exit" else "Boom"
     feat = "+".join(sorted(set(bodies.values()) - {"nop"})) or "plain"
-    # several callbacks of one wake-up may raise before the loop actually stops: the statement does not say which one wins
-    also = {"ok" if r == "exit" else "Boom" for r in raisers} if len(raisers) > 1 else set()
+    # several callbacks of one wake-up may raise before the loop actually stops; a loop that serves the rest of the wake-up may let a later
+    # Boom win over an earlier ExitMainLoop, but an exception that is not ExitMainLoop is never dropped: a silent end needs the first raiser to be ExitMainLoop
+    also = {"Boom"} if len(raisers) > 1 and "boom" in raisers else set()
     if res != want and res not in also:
         if res.startswith("EXC:"):
             out.append(("only-callback-exceptions", res.split(":")[1], f"run() raised {res[4:]}; no callback raised that (expected: {want})"))
@@ -311,7 +312,8 @@ def programs(tier):
                     continue
                 pairs.append(("full", ((s1, b1), (s2, b2))))
     if tier == "quick":
-        pairs = pairs[::3]
+        # every third pair, plus every pair in which both bodies raise (which exception wins is judged on those)
+        pairs = [p for i, p in enumerate(pairs) if i % 3 == 0 or all(b in ("exit", "boom") for _s, b in p[1])]
     out += pairs
     if tier != "quick":
         # three bodies: a covering subset
@@ -600,7 +602,7 @@ def run(tier, R):
         "evaluations": ev,
         "distinct_nontrivial": nt,
         "rule": f"{len(progs)} programs (3 alarms registered out of due order, 2 watches, 0 or 2 idle callbacks, a sentinel alarm; every single callback body of "
-        f"{BODIES} in every slot, and {'every third' if tier == 'quick' else 'every'} pair of bodies in two slots" + (", a 6^3 lattice of three bodies in every slot triple" if tier != "quick" else "") + f") x 6 loops (select, asyncio, tornado, twisted, zmq, trio) x every "
+        f"{BODIES} in every slot, and {'every third pair (and every pair of two raising bodies)' if tier == 'quick' else 'every pair'} of bodies in two slots" + (", a 6^3 lattice of three bodies in every slot triple" if tier != "quick" else "") + f") x 6 loops (select, asyncio, tornado, twisted, zmq, trio) x every "
         f"schedule with at most {2 if tier == 'quick' else 3} deviations (trio: {1 if tier == 'quick' else 2}) from the default environment answer (which readable descriptors a wait "
         "reports, in which order; trio: batch reversal per scheduler tick); each execution judged by the contract acceptor. Part 2: every registration order of n alarms with distinct due "
         f"times (n up to {ALARM_NMAX[tier]}), with no removal, each alarm removed before run(), and each alarm removed from the callback of the earliest other alarm: firing order, firing "
@@ -615,7 +617,7 @@ def run(tier, R):
             "the environment is a legal OS: a wait with a readable registered descriptor returns at once with a non-empty subset; otherwise time advances by exactly the time-out",
             "idle slack 12 ms of virtual time (covers twisted's 1/256 s idle emulation); trio time tolerance 1 ms (its mock clock autojumps); every other loop, tornado included, runs on the exact virtual clock",
             "after a callback raised, only the way run() ends is judged; liveness clauses are judged on executions that reach the sentinel alarm; when several callbacks "
-            "raised before the loop stopped, the outcome of any of them is accepted",
+            "raised before the loop stopped, run() may raise Boom if any of them raised it, and may end silently only if the first one raised ExitMainLoop",
             "raise-once is also checked with a second run() on select, asyncio and zmq (the other reactors cannot be restarted by this harness)",
         ],
     }
